@@ -25,7 +25,7 @@ def summarise(prog: Program, module: Module, stmts, inputs: list[str], outputs: 
     env.set("__break__", FALSE)
     stmts = [s for s in stmts if not (isinstance(s, ast.Expr) and isinstance(s.value, ast.Constant))]
     out = it.exec_block(list(stmts), env, (module, None, None))
-    if out[0] != "fall":
+    if out[0] not in ("fall", "continue"):
         raise AnalysisError(f"statement block does not fall through ({out[0]})")
     res = {}
     for n in outputs:
